@@ -116,24 +116,22 @@ def documented (rules : List Rule) (k : Key) : Res := lookupWith docClauses rule
 
 def isCatchAll (r : Rule) (k : Key) : Bool := isCatchAllWith docClauses r k
 
-/-! ## The two known deviations, as variant clauses (used to NAME a violation, never to accept one) -/
+/-! ## The known deviation, as a variant clause (used to NAME a violation, never to accept one) -/
 
 /-- F3: with an interface name in the key, a CIDR-only catch-all is ranked like a global one. -/
 def rankF3 (r : Rule) (k : Key) : Nat :=
   if r.iface == "" && k.iface != "" then 0 else rank r
 
-/-- F15: a catch-all without CIDR, with externals, none of which is of a family its `Networks`
-allow ("starved"). -/
+/-- A catch-all without CIDR, with externals, none of which is of a family its `Networks` allow ("starved").
+Documented: such a rule is a catch-all for no key (`catchAllIPs` = `none` for every key in scope). Until /repo
+d6a4f83 the code applied it as an EMPTY catch-all (finding F15); the predicate is kept for the regression
+examples and the generator's vocabulary — no clause, guard or monitor reason depends on it any more. -/
 def starved (r : Rule) : Bool :=
   r.loc == .none && !r.ext.isEmpty && !hasCIDR r && (externals r).all (fun e => !netsAllow r e.v4)
 
-/-- F15: such a rule is applied as if its External list had been empty. -/
-def caIPsF13 (r : Rule) (k : Key) : Option (List IP) :=
-  if starved r then some [] else catchAllIPs r k
-
 def f3Clauses : Clauses := { rank := rankF3, caIPs := catchAllIPs }
-def f13Clauses : Clauses := { rank := fun r _ => rank r, caIPs := caIPsF13 }
-def asCodedClauses : Clauses := { rank := rankF3, caIPs := caIPsF13 }
+/-- the code as it is: the documented clauses with the F3 rank (since /repo d6a4f83 the only as-coded clause) -/
+def asCodedClauses : Clauses := f3Clauses
 
 /-- Exactly the keys on which the F3 deviation changes the winning rule: an interface name is
 given, no explicit `Local` match, the best documented rank among the matching catch-alls is
@@ -146,10 +144,7 @@ def f3Region (rules : List Rule) (k : Key) : Bool :=
         | some g => rank g == 0
         | none => false)
 
-def noStarved (rules : List Rule) : Bool := rules.all (fun r => !starved r)
-
 def reasonF3 : String := "catch-all CIDR outranked by global with interface key"
-def reasonF13 : String := "catch-all with all externals excluded by Networks applied as empty rule"
 
 def showIP (ip : IP) : String := (if ip.v4 then "4:" else "6:") ++ toString ip.val
 
@@ -163,8 +158,6 @@ def lookupViolation (rules : List Rule) (k : Key) (impl : Res) : Option String :
   else
     let why :=
       if f3Region rules k && impl = lookupWith f3Clauses rules k then reasonF3
-      else if impl = lookupWith f13Clauses rules k then reasonF13
-      else if impl = lookupWith asCodedClauses rules k then reasonF3 ++ " + " ++ reasonF13
       else "lookup differs from the documented precedence"
     some (why ++ " (documented " ++ showRes doc ++ ")")
 
@@ -191,8 +184,6 @@ def applyViolation (kind : Kind) (rules : List Rule) (k : Key) (orig : IP) (impl
     let via (c : Clauses) : Bool := canonApply impl = canonApply (docApply kind orig (lookupWith c rules k))
     let why :=
       if f3Region rules k && via f3Clauses then reasonF3
-      else if via f13Clauses then reasonF13
-      else if via asCodedClauses then reasonF3 ++ " + " ++ reasonF13
       else "advertised addresses differ from the documented mode semantics"
     some (why ++ " (apply)")
 
